@@ -2,6 +2,7 @@
 import random
 
 import gen
+import oracles
 import slices
 from framework import PropertyCheck, Scenario
 from impl import instance_line
@@ -218,6 +219,15 @@ class Check(PropertyCheck):
         lines = scenario.lines
         outs = ctx.setdefault("outs", [])
         outs.append(out)
+        # the instance is part of the dispatcher: a rejected request leaves it (operations and cached views) as it was
+        if line.startswith("mark injected") or line.startswith("mark blind"):
+            if getattr(impl, "instance", None) is not None:
+                ctx["idump"] = (oracles.dump_instance(impl.instance), oracles.dump_views(impl.instance))
+        elif line.startswith(("disp", "estep")) and ctx.get("idump") is not None and getattr(impl, "instance", None) is not None:
+            now = (oracles.dump_instance(impl.instance), oracles.dump_views(impl.instance))
+            if now != ctx["idump"]:
+                res.append(("instance-changed", f"rejected `{line}` modified the instance (operations or cached views)"))
+            ctx["idump"] = None
         if scenario.meta.get("kind") == "multi":
             if line.startswith("mbad") and out.startswith("bad ") and not out.endswith("raise"):
                 res.append(("not-rejected", f"`{line}`: the illegal decision {out.split()[1:3]} of the multi-instance "
